@@ -7,7 +7,7 @@ import ast
 from ..core import astutil as A
 from ..core.index import AnalysisError, FuncInfo
 from .common import (BASE_OUTLINE, OTF_OUTLINE, TTF_OUTLINE, T, attr_stores, calls_named, conds, every_origin,
-                     entry_funcs, is_self_attr, key, membership_guard, name_is, need, same_as,
+                     entry_funcs, facts, is_self_attr, key, membership_guard, name_is, need, same_as,
                      subscript_stores, where)
 
 BROAD = {"Exception", "BaseException", "Error", "InvalidFontData", "ufo2ft.errors.Error",
@@ -24,6 +24,7 @@ def run(prog, chk):
         "BMP / non-BMP split uses one bound with complementary operators; 32-bit tables include BMP (R03.5)",
         "UVS default vs non-default decided by equality with the base mapping (R03.6)",
         "every declared code point of every glyph of the order reaches the mapping (no filtering: U+0000 is a code point); OS/2 indices only exclude None (R03.7)",
+        "the compilers never fill in or override their glyphOrder option: a source is ordered by the caller's argument or its own public.glyphOrder (R03.8)",
     ]
     chk.not_decided += ["the ordering as a function of arbitrary inputs", "cmap binary encoding (fontTools)"]
     chk.guard(r031, prog, chk)
@@ -33,6 +34,7 @@ def run(prog, chk):
     chk.guard(r034, prog, chk)
     chk.guard(r035, prog, chk)
     chk.guard(r037, prog, chk)
+    chk.guard(r038, prog, chk)
 
 
 # ----------------------------------------------------------------------------- R03.1
@@ -608,7 +610,49 @@ def r037(prog, chk):
     chk.minimum("R03.7", 3)
 
 
+
+# ----------------------------------------------------------------------------- R03.8
+def r038(prog, chk):
+    """The order a source is compiled with is the caller's glyphOrder argument or, when there is none, that source's
+    own public.glyphOrder: the compilers never fill in or override their glyphOrder option themselves."""
+    ix = prog.ix
+    base = ix.get_class("ufo2ft._compilers.baseCompiler.BaseCompiler")
+    ok = "glyphOrder" in base.attrs and A.is_const(base.attrs["glyphOrder"], None)
+    chk.ob("R03.8", "BaseCompiler.glyphOrder|option defaults to None (= each source's own order)", ok, base.module.relpath, detail="glyphOrder: Optional[list] = None",
+           message="the compilers' glyphOrder option no longer defaults to None")
+    oi = ix.get_method(BASE_OUTLINE, "__init__", own=True)
+    fb = [st for st in A.stmts_of(oi.node) if isinstance(st, ast.Assign) and T(st.targets[0]) == "glyphOrder"]
+    okf = len(fb) == 1 and T(fb[0].value).endswith(".glyphOrder") and any(o == "is" and l == "glyphOrder" and r == "None" for o, l, r in facts(prog, oi, fb[0])) \
+        and isinstance(fb[0].value, ast.Attribute) and T(fb[0].value.value) == oi.params()[1]
+    chk.ob("R03.8", f"{oi.short}|a missing order falls back to the compiled font's own glyphOrder", okf, where(oi, fb[0]) if fb else where(oi), detail="if glyphOrder is None: glyphOrder = font.glyphOrder",
+           message=f"{oi.short}: without an explicit order the outline compiler no longer takes the order of the font it compiles")
+    n = 0
+    for fi in ix.functions.values():
+        if not fi.module.name.startswith("ufo2ft._compilers") and fi.module.name != "ufo2ft":
+            continue
+        for st, t, v in attr_stores(fi, "glyphOrder"):
+            n += 1
+            chk.ob("R03.8", f"{fi.short}|{A.keytext(fi.node, st)}|compilers do not assign their glyphOrder option", False, where(fi, st), detail=T(st, 80),
+                   message=f"{fi.short} assigns `{T(t)}`: every source (every master) is then ordered by this value instead of the caller's argument / its own public.glyphOrder")
+        for st, t, v in subscript_stores(fi):
+            if A.is_const(t.slice, "glyphOrder"):
+                n += 1
+                chk.ob("R03.8", f"{fi.short}|{A.keytext(fi.node, st)}|compilers do not override the glyphOrder handed to the outline compiler", False, where(fi, st), detail=T(st, 80),
+                       message=f"{fi.short} overrides the glyphOrder keyword of the outline compiler")
+        for c in A.body_nodes(fi.node):
+            if isinstance(c, ast.Call) and isinstance(c.func, ast.Attribute) and c.func.attr == "outlineCompilerClass":
+                n += 1
+                kw = A.kwarg(c, "glyphOrder")
+                chk.ob("R03.8", f"{fi.short}|outline compiler built from the compiler's own options", kw is None or T(kw) == "self.glyphOrder", where(fi, c), detail=T(c, 80),
+                       message=f"{fi.short}: the outline compiler receives glyphOrder={T(kw) if kw is not None else ''} instead of the compiler's option")
+    chk.minimum("R03.8", 6)
+
+
 MUTANTS = [
+    M("designspace compiles order every master like the default source (seeded C03e)", "ufo2ft/_compilers/baseCompiler.py", "BaseInterpolatableCompiler._pre_compile_designspace",
+      "self.extraSubstitutions = defaultdict(set)", "if self.glyphOrder is None:\n    self.glyphOrder = designSpaceDoc.findDefault().font.glyphOrder\nself.extraSubstitutions = defaultdict(set)", rule="R03.8"),
+    M("interpolatable TTF masters ordered by the first master", "ufo2ft/_compilers/interpolatableTTFCompiler.py", "InterpolatableTTFCompiler.compileOutlines",
+      "kwargs['roundCoordinates'] = False", "kwargs['roundCoordinates'] = False\nkwargs['glyphOrder'] = sorted(glyphSet.keys())", rule="R03.8"),
     M("falsy code points (U+0000) dropped from the mapping (seeded C03d)", "ufo2ft/util.py", "makeUnicodeToGlyphNameMapping",
       "unicodes = glyph.unicodes", "unicodes = filter(None, glyph.unicodes)", rule="R03.7"),
     M("only the first code point of a glyph is mapped", "ufo2ft/util.py", "makeUnicodeToGlyphNameMapping",
